@@ -196,9 +196,12 @@ def hasSub (pat : Bytes) : Bytes → Bool
   | [] => pat.isEmpty
   | a :: t => pat.isPrefixOf (a :: t) || hasSub pat t
 
-def hTransferEncoding : Bytes := "Transfer-Encoding".toUTF8.toList
-def hContentLength : Bytes := "Content-Length".toUTF8.toList
-def sChunked : Bytes := "chunked".toUTF8.toList
+/-- "Transfer-Encoding" -/
+def hTransferEncoding : Bytes := [84, 114, 97, 110, 115, 102, 101, 114, 45, 69, 110, 99, 111, 100, 105, 110, 103]
+/-- "Content-Length" -/
+def hContentLength : Bytes := [67, 111, 110, 116, 101, 110, 116, 45, 76, 101, 110, 103, 116, 104]
+/-- "chunked" -/
+def sChunked : Bytes := [99, 104, 117, 110, 107, 101, 100]
 
 /-- `te != NULL && strstr(te, "chunked") != NULL` -/
 def isChunkedTE : Option Bytes → Bool
@@ -265,6 +268,29 @@ def addbody (st : St) (piece : Bytes) : Option St :=
 
 /-! ## handlers -/
 
+/-- the end of `gotheaders`, once status and header fields are parsed (`len` bytes were consumed):
+    restart after a 1xx response, else choose the framing in the C's order
+    (no body for HEAD/204/304; `Transfer-Encoding` containing "chunked"; `Content-Length`; read to EOF) -/
+def afterParse (st : St) (status : Int) (hdrs : List (Bytes × Bytes)) (len : Nat) : Micro :=
+  if INTERIM_MIN ≤ status && status ≤ INTERIM_MAX then
+    .goto { st with hepos := 0, status := status, headers := [] } len .readHeader
+  else
+  let st := { st with status := status, headers := hdrs }
+  if st.ishead || status == NOBODY_A || status == NOBODY_B then
+    .done (some { status := status, headers := hdrs, body := some [] })
+  else
+  if isChunkedTE (findHeader hdrs hTransferEncoding) then
+    .goto { st with chunked := true } len .chunkedHeader
+  else
+  match findHeader hdrs hContentLength with
+  | some clen =>
+    match parsenumSize 10 false clen with
+    | none => .done none
+    | some n =>
+      if n > st.max then tooBig st
+      else .goto { st with readlen := n, chunked := false } len .readData
+  | none => .goto st len .readToEof
+
 /-- `gotheaders` on the copied header block `head` (the snapshot's first `hepos + 4` bytes, all consumed) -/
 def gotHeaders (ovf : Bool → Nat → Int) (st : St) (head : Bytes) : Micro :=
   let nlines := countLines head 0
@@ -283,24 +309,7 @@ def gotHeaders (ovf : Bool → Nat → Int) (st : St) (head : Bytes) : Micro :=
       | .nul => .done none
       | .ok hdrs rest =>
         if rest.length != 2 then .abort "bufpos + 2 == res_headlen" else
-        if INTERIM_MIN ≤ sl.status && sl.status ≤ INTERIM_MAX then
-          .goto { st with hepos := 0, status := sl.status, headers := [] } head.length .readHeader
-        else
-        let st := { st with status := sl.status, headers := hdrs }
-        if st.ishead || sl.status == NOBODY_A || sl.status == NOBODY_B then
-          .done (some { status := sl.status, headers := hdrs, body := some [] })
-        else
-        if isChunkedTE (findHeader hdrs hTransferEncoding) then
-          .goto { st with chunked := true } head.length .chunkedHeader
-        else
-        match findHeader hdrs hContentLength with
-        | some clen =>
-          match parsenumSize 10 false clen with
-          | none => .done none
-          | some len =>
-            if len > st.max then tooBig st
-            else .goto { st with readlen := len, chunked := false } head.length .readData
-        | none => .goto st head.length .readToEof
+        afterParse st sl.status hdrs head.length
 
 /-- `callback_read_header` -/
 def readHeader (ovf : Bool → Nat → Int) (st : St) (s : Status) (buf : Bytes) : Micro :=
